@@ -886,10 +886,10 @@ it (in formatting order) having been formatted -/
 theorem formatEntries_missing (db : BibData) (items : Str → Option Item) :
     ∀ (l : List (Str × PEntry)) (f key : Str), formatEntries db items l = .error (.missingField f key) →
       ∃ pre label e post it, l = pre ++ (label, e) :: post ∧ e.key = key ∧ items e.key = some it ∧
-        eval evalFuel { entry := e.toEntry, db := some db, personTemplates := it.personTemplates } it.template
+        eval evalFuel { entry := e.toEntry, db := some db, personTemplates := it.personTemplates, decode := it.decode } it.template
           = .error (.missing f) ∧
         ∀ p ∈ pre, ∃ it r, items p.2.key = some it ∧
-          eval evalFuel { entry := p.2.toEntry, db := some db, personTemplates := it.personTemplates } it.template = .ok r := by
+          eval evalFuel { entry := p.2.toEntry, db := some db, personTemplates := it.personTemplates, decode := it.decode } it.template = .ok r := by
   intro l
   induction l with
   | nil => intro f key h; simp [formatEntries] at h
@@ -2209,9 +2209,10 @@ theorem eval_coverage (ctx : Ctx) : ∀ fuel,
 theorem fieldValue_text {ctx : Ctx} {o : Occ} {val : RT} (h : fieldValue ctx o = some val) :
     ∃ v, ctx.entry.findField o.name ctx.db = some v ∧
       (o.raw = true → o.fn = .none → toStr val = v) ∧
-      (o.raw = false → o.fn = .none → toStr val = stripBraces v) ∧
-      (o.raw = false → (o.fn = .lower ∨ o.fn = .capitalize) → lower (toStr val) = lower (stripBraces v)) ∧
-      (o.raw = false → o.fn = .dashify → nonDash (sem [] val) = nonDash (flatLatex 0 v)) := by
+      (o.raw = false → o.fn = .none → toStr val = stripBraces (decodeOf ctx.decode v)) ∧
+      (o.raw = false → (o.fn = .lower ∨ o.fn = .capitalize) →
+        lower (toStr val) = lower (stripBraces (decodeOf ctx.decode v))) ∧
+      (o.raw = false → o.fn = .dashify → nonDash (sem [] val) = nonDash (flatLatex 0 (decodeOf ctx.decode v))) := by
   unfold fieldValue at h
   split at h
   · cases h
@@ -2261,7 +2262,7 @@ theorem toStr_of_terminated {r : RT} (h : Flat.terminated Gen.terminators (sem [
 theorem formatEntries_ok_mem (db : BibData) (items : Str → Option Item) :
     ∀ (l : List (Str × PEntry)) (fs : List Formatted), formatEntries db items l = .ok fs →
       ∀ f ∈ fs, ∃ label e it, (label, e) ∈ l ∧ items e.key = some it ∧ f.key = e.key ∧ f.label = label ∧
-        eval evalFuel { entry := e.toEntry, db := some db, personTemplates := it.personTemplates } it.template
+        eval evalFuel { entry := e.toEntry, db := some db, personTemplates := it.personTemplates, decode := it.decode } it.template
           = .ok f.text := by
   intro l
   induction l with
@@ -2307,5 +2308,492 @@ theorem formatBibliography_ok_mem {es : List PEntry} {items : Str → Option Ite
       | none => exact hin
       | authorYearTitle => exact (sortBy_perm _ _).mem_iff.1 hin
     exact ⟨e, hmem, it, h1, h2, h4⟩
+
+/-! ### name coverage -/
+
+/-- the value shown of the name-word occurrence `o` occurs in `r` -/
+def NCovOK (o : NOcc) (r : RT) : Prop := Covers o.caseChanged (toStr o.shown) (toStr r)
+
+theorem NCovOK.of_infix {o : NOcc} {p r : RT} (h : NCovOK o p) (hpr : toStr p <:+: toStr r) : NCovOK o r :=
+  Covers.of_infix h hpr
+
+theorem mem_evalList_of_lit {ctx : Ctx} : ∀ (fuel : Nat) (cs : List T) (rs : List RT),
+    evalList fuel ctx cs = .ok rs → ∀ r ∈ litsOf cs, r ∈ rs := by
+  intro fuel
+  induction fuel with
+  | zero => intro cs rs h; simp [evalList] at h
+  | succ n ih =>
+    intro cs rs h r hr
+    cases cs with
+    | nil => simp [litsOf] at hr
+    | cons t ts =>
+      simp only [evalList] at h
+      split at h
+      · cases h
+      · rename_i x hx
+        split at h
+        · cases h
+        · rename_i rs' hrs
+          simp only [Except.ok.injEq] at h; subst h
+          cases t with
+          | lit y =>
+            simp only [litsOf, List.mem_cons] at hr
+            rcases hr with rfl | hr
+            · cases n with
+              | zero => simp [eval] at hx
+              | succ m => simp only [eval, Except.ok.injEq] at hx; subst hx; simp
+            · exact List.mem_cons_of_mem _ (ih ts rs' hrs r hr)
+          | _ => exact List.mem_cons_of_mem _ (ih ts rs' hrs r (by simpa [litsOf] using hr))
+
+theorem toStr_infix_namePartText (before : RT) (tie abbr : Bool) {p : RT} {children : List RT}
+    (h : p ∈ (if abbr then children.map abbreviate else children)) :
+    toStr p <:+: toStr (namePartText before tie abbr children) := by
+  simp only [namePartText]
+  generalize (if abbr = true then List.map abbreviate children else children) = ch at h ⊢
+  have hin := toStr_infix_togetherParts true h
+  refine hin.trans ?_
+  split
+  · rename_i hfalsy
+    rw [toStr_nil_of_falsy (by simpa using hfalsy)]; exact List.nil_infix
+  · split
+    · exact toStr_infix_mk _ (by simp)
+    · exact toStr_infix_mk _ (by simp)
+
+theorem eval_nameCoverage (ctx : Ctx) : ∀ fuel,
+    (∀ t r, eval fuel ctx t = .ok r → ∀ o ∈ printedN fuel ctx t, NCovOK o r) ∧
+    (∀ ts rs, evalList fuel ctx ts = .ok rs → ∀ o ∈ printedNL fuel ctx ts, ∃ r ∈ rs, NCovOK o r) ∧
+    (∀ ts r, evalFirst fuel ctx ts = .ok r → ∀ o ∈ printedNF fuel ctx ts, NCovOK o r) := by
+  intro fuel
+  induction fuel with
+  | zero => refine ⟨?_, ?_, ?_⟩ <;> intro t r h <;> simp [eval, evalList, evalFirst] at h
+  | succ n ih =>
+    obtain ⟨ih1, ih2, ih3⟩ := ih
+    refine ⟨?_, ?_, ?_⟩
+    · intro t r h o ho
+      cases t with
+      | lit x => simp [printedN] at ho
+      | raw s => simp [printedN] at ho
+      | field name fn raw => simp [printedN] at ho
+      | join s s2 ls cs =>
+        simp only [eval] at h
+        split at h
+        · cases h
+        · rename_i parts hp
+          simp only [Except.ok.injEq] at h; subst h
+          obtain ⟨p, hpm, hc⟩ := ih2 cs parts hp o (by simpa [printedN] using ho)
+          exact hc.of_infix (toStr_infix_joinParts _ _ _ hpm)
+      | together lt cs =>
+        simp only [eval] at h
+        split at h
+        · cases h
+        · rename_i parts hp
+          simp only [Except.ok.injEq] at h; subst h
+          obtain ⟨p, hpm, hc⟩ := ih2 cs parts hp o (by simpa [printedN] using ho)
+          exact hc.of_infix (toStr_infix_togetherParts _ hpm)
+      | sentence cf cap ap sep cs =>
+        rw [eval_sentence] at h
+        split at h
+        · cases h
+        · rename_i parts hp
+          simp only [Except.ok.injEq] at h; subst h
+          simp only [printedN, List.mem_map] at ho
+          obtain ⟨o', ho', rfl⟩ := ho
+          obtain ⟨p, hpm, hc⟩ := ih2 cs parts hp o' ho'
+          exact sentenceText_covers cf cap ap sep parts (Covers.of_infix hc (toStr_infix_joinParts _ _ _ hpm))
+      | names role s s2 ls =>
+        simp only [eval] at h
+        split at h
+        · cases h
+        · rename_i r' ts hf
+          split at h
+          · cases h
+          · rename_i parts hp
+            simp only [Except.ok.injEq] at h; subst h
+            simp only [printedN, hf] at ho
+            obtain ⟨p, hpm, hc⟩ := ih2 ts parts hp o ho
+            exact hc.of_infix (toStr_infix_joinParts _ _ _ hpm)
+      | optional cs =>
+        simp only [eval] at h
+        split at h
+        · rename_i f hf; simp [printedN, hf] at ho
+        · rename_i e hne hf; simp [printedN, hf] at ho
+        · rename_i parts hp
+          simp only [Except.ok.injEq] at h; subst h
+          simp only [printedN, hp] at ho
+          obtain ⟨p, hpm, hc⟩ := ih2 cs parts hp o ho
+          exact hc.of_infix (toStr_infix_mk _ hpm)
+      | firstOf cs =>
+        simp only [eval] at h
+        exact ih3 cs r h o (by simpa [printedN] using ho)
+      | tag name cs =>
+        simp only [eval] at h
+        split at h
+        · cases h
+        · rename_i parts hp
+          simp only [Except.ok.injEq] at h; subst h
+          obtain ⟨p, hpm, hc⟩ := ih2 cs parts hp o (by simpa [printedN] using ho)
+          exact hc.of_infix (toStr_infix_mk _ hpm)
+      | href url ext cs =>
+        rw [eval_href] at h
+        split at h
+        · cases h
+        · rename_i parts hp
+          split at h
+          · cases h
+          · simp only [Except.ok.injEq] at h; subst h
+            obtain ⟨p, hpm, hc⟩ := ih2 cs parts hp o (by simpa [printedN] using ho)
+            exact hc.of_infix (toStr_infix_mk _ hpm)
+      | namePart before tie abbr cs =>
+        rw [eval_namePart] at h
+        split at h
+        · cases h
+        · rename_i children hp
+          simp only [Except.ok.injEq] at h; subst h
+          simp only [printedN, List.mem_append, List.mem_map] at ho
+          rcases ho with ⟨x, hx, rfl⟩ | ho
+          · have hmem := mem_evalList_of_lit n cs children hp x hx
+            have hsh : (NOcc.mk x abbr false).shown ∈ (if abbr then children.map abbreviate else children) := by
+              cases abbr with
+              | true => simpa [NOcc.shown] using List.mem_map.2 ⟨x, hmem, rfl⟩
+              | false => simpa [NOcc.shown] using hmem
+            exact Covers.of_infix (Covers.refl _) (toStr_infix_namePartText before tie abbr hsh)
+          · cases abbr with
+            | true => simp at ho
+            | false =>
+              simp only [Bool.false_eq_true, if_false] at ho
+              obtain ⟨p, hpm, hc⟩ := ih2 cs children hp o ho
+              exact hc.of_infix (toStr_infix_namePartText before tie false (by simpa using hpm))
+    · intro ts rs h o ho
+      cases ts with
+      | nil => simp [printedNL] at ho
+      | cons t ts =>
+        simp only [evalList] at h
+        split at h
+        · cases h
+        · rename_i r hr
+          split at h
+          · cases h
+          · rename_i rs' hrs
+            simp only [Except.ok.injEq] at h; subst h
+            simp only [printedNL, List.mem_append] at ho
+            rcases ho with ho | ho
+            · exact ⟨r, by simp, ih1 t r hr o ho⟩
+            · obtain ⟨p, hpm, hc⟩ := ih2 ts rs' hrs o ho
+              exact ⟨p, List.mem_cons_of_mem _ hpm, hc⟩
+    · intro ts r h o ho
+      cases ts with
+      | nil => simp [printedNF] at ho
+      | cons t ts =>
+        simp only [evalFirst] at h
+        split at h
+        · cases h
+        · rename_i r' hr
+          simp only [printedNF, hr] at ho
+          split at h
+          · rename_i htr
+            simp only [Except.ok.injEq] at h; subst h
+            rw [if_pos htr] at ho
+            exact ih1 t _ hr o ho
+          · rename_i htr
+            rw [if_neg htr] at ho
+            exact ih3 ts r h o ho
+
+/-! ### `abbreviate` -/
+
+theorem flatten_splitDelim : ∀ (s cur : Str), (splitDelim s cur).flatten = cur.reverse ++ s := by
+  intro s
+  induction s with
+  | nil => intro cur; simp [splitDelim]
+  | cons c r ih =>
+    intro cur
+    simp only [splitDelim]
+    split
+    · simp [ih]
+    · rw [ih]; simp
+
+theorem toStr_flatten_sem (ctx : List Markup) (l : List RT) :
+    Flat.toStr ((l.map (sem ctx)).flatten) = (l.map toStr).flatten := by
+  induction l with
+  | nil => rfl
+  | cons x l ih => simp only [List.map_cons, List.flatten_cons, toStr_flat_append, ih, toStr_sem]
+
+/-- every atom is an alphabetic character -/
+def AlphaAtoms (s : Flat) : Prop := ∀ x ∈ s, ∃ c, x.1 = .ch c ∧ isAlphaN c = true
+
+theorem filter_const_true {α : Type} (l : List α) : l.filter (fun _ => true) = l := by
+  induction l with
+  | nil => rfl
+  | cons x l ih => simp [ih]
+
+theorem alphaAtoms_push (m : List Markup) (s : Flat) : AlphaAtoms (Flat.push m s) ↔ AlphaAtoms s := by
+  unfold AlphaAtoms Flat.push
+  constructor
+  · intro h x hx
+    exact h (x.1, m ++ x.2) (List.mem_map.2 ⟨x, hx, rfl⟩)
+  · intro h x hx
+    obtain ⟨y, hy, rfl⟩ := List.mem_map.1 hx
+    exact h y hy
+
+/-- splitting at the delimiters (which are kept as pieces) loses nothing -/
+theorem abbrPieces_flatten (t : RT) : ((abbrPieces t).map toStr).flatten = toStr t := by
+  have h := splitF_filter (fun s => splitDelim s []) (fun _ => true) (by
+    intro ctx _ s
+    simp only [filter_const_true]
+    have : ∀ L : List Str, (L.map fun x => sem ctx (.str x)).flatten = sem ctx (.str L.flatten) := by
+      intro L
+      induction L with
+      | nil => rfl
+      | cons x L ih => rw [List.map_cons, List.flatten_cons, ih]; simp [sem]
+    rw [this, flatten_splitDelim]; rfl) t [] rfl
+  simp only [filter_const_true] at h
+  rw [← toStr_flatten_sem [], abbrPieces, h, toStr_sem]
+
+theorem joinWith_nil_sep {α : Type} : ∀ L : List (List α), joinWith [] L = L.flatten := by
+  intro L
+  induction L with
+  | nil => rfl
+  | cons x L ih =>
+    cases L with
+    | nil => simp [joinWith]
+    | cons y r => simp only [joinWith, List.append_nil, ih, List.flatten_cons]
+
+theorem toStr_abbreviate (t : RT) :
+    toStr (abbreviate t) = ((abbrPieces t).map fun w => toStr (abbreviateWord w)).flatten := by
+  rw [← toStr_sem (abbreviate t) [], abbreviate, sem_join]
+  have : sem [] (.str []) = [] := rfl
+  rw [this, joinWith_nil_sep, List.map_map, ← List.map_map, toStr_flatten_sem, List.map_map]
+  rfl
+
+theorem alphaAtoms_of_isAlphaTU (t : RT) : isAlphaTU t = true → len t ≠ 0 ∧ ∀ ctx, AlphaAtoms (sem ctx t) := by
+  induction t using RT.induct with
+  | hstr s =>
+    intro h
+    simp only [isAlphaTU, Bool.and_eq_true, Bool.not_eq_true', List.all_eq_true] at h
+    refine ⟨by simpa [len] using h.1, fun ctx x hx => ?_⟩
+    simp only [sem, List.mem_map] at hx
+    obtain ⟨c, hc, rfl⟩ := hx
+    exact ⟨c, rfl, h.2 c hc⟩
+  | hsym n => intro h; simp [isAlphaTU] at h
+  | hnode k ps ih =>
+    intro h
+    simp only [isAlphaTU, Bool.and_eq_true, bne_iff_ne, ne_eq] at h
+    refine ⟨by simpa [len] using h.1, fun ctx => ?_⟩
+    simp only [sem]
+    generalize ctx ++ k.markup = c
+    have hall := h.2
+    clear h
+    induction ps with
+    | nil => intro x hx; simp [semL] at hx
+    | cons p ps ih2 =>
+      simp only [isAlphaLU, Bool.and_eq_true] at hall
+      intro x hx
+      simp only [semL, List.mem_append] at hx
+      rcases hx with hx | hx
+      · exact (ih p (by simp) hall.1).2 c x hx
+      · exact ih2 (fun q hq => ih q (List.mem_cons_of_mem _ hq)) hall.2 x hx
+
+theorem terminators_not_alpha :
+    (Gen.terminators.all fun x => match x with | [c] => !isAlphaN c | _ => true) = true := by decide +kernel
+
+theorem not_terminator_of_alpha {c : Char} (h : isAlphaN c = true) : Gen.terminators.contains [c] = false := by
+  rw [Bool.eq_false_iff]
+  intro hc
+  have hmem : [c] ∈ Gen.terminators := by simpa using hc
+  have := List.all_eq_true.1 terminators_not_alpha [c] hmem
+  simp [h] at this
+
+theorem endsWith_false_of_alpha (t : RT) : (∀ ctx, AlphaAtoms (sem ctx t)) → endsWith Gen.terminators t = false := by
+  induction t using RT.induct with
+  | hstr s =>
+    intro h
+    rw [endsWith, any_suffix_single _ terminators_single]
+    cases hl : s.getLast? with
+    | none => rfl
+    | some c =>
+      have hc : c ∈ s := List.mem_of_getLast? hl
+      obtain ⟨c', h1, h2⟩ := h [] (.ch c, []) (by simp only [sem, List.mem_map]; exact ⟨c, hc, rfl⟩)
+      simp only [Atom.ch.injEq] at h1; subst h1
+      exact not_terminator_of_alpha h2
+  | hsym n => intro _; rfl
+  | hnode k ps ih =>
+    intro h
+    simp only [endsWith]
+    have h' : ∀ ctx, AlphaAtoms (semL ctx ps) := by
+      intro ctx
+      have h0 := h []
+      simp only [sem] at h0
+      rw [semL_ctx, alphaAtoms_push] at h0
+      rw [semL_ctx, alphaAtoms_push]
+      exact h0
+    clear h
+    induction ps with
+    | nil => rfl
+    | cons p ps ih2 =>
+      cases ps with
+      | nil =>
+        simp only [endsWithL]
+        exact ih p (by simp) (fun ctx x hx => h' ctx x (by simp [semL, hx]))
+      | cons q r =>
+        simp only [endsWithL]
+        exact ih2 (fun x hx => ih x (List.mem_cons_of_mem _ hx))
+          (fun ctx x hx => h' ctx x (by rw [semL]; exact List.mem_append_right _ hx))
+
+theorem toStr_append (t x : RT) : toStr (append t x) = toStr t ++ toStr x := by
+  rw [← toStr_sem (append t x) [], ← toStr_sem t [], ← toStr_sem x []]
+  cases t with
+  | str s => simp only [append, sem_add, toStr_flat_append]
+  | sym n => simp only [append, sem_add, toStr_flat_append]
+  | node k ps => rw [sem_append_node, toStr_flat_append, toStr_sem x, toStr_sem x]
+
+/-- `abbreviate_word`: an alphabetic word becomes its first character and a period, any other piece is kept -/
+theorem toStr_abbreviateWord (w : RT) : toStr (abbreviateWord w) = abbrPiece w := by
+  unfold abbreviateWord abbrPiece
+  split
+  · rename_i ha
+    obtain ⟨hlen, halpha⟩ := alphaAtoms_of_isAlphaTU w ha
+    have hrange : -(len w : Int) ≤ 0 ∧ (0 : Int) < (len w : Int) := by omega
+    obtain ⟨r, hr, hsem, -⟩ := sem_getIndex_ok [] w 0 hrange
+    rw [hr]
+    show toStr (addPeriodT r) = _
+    simp only [Int.lt_irrefl, if_false, Int.toNat_zero, List.drop_zero] at hsem
+    have hsemAll : ∀ ctx, sem ctx r = (sem ctx w).take 1 := by
+      intro ctx
+      obtain ⟨r', hr', hsem', -⟩ := sem_getIndex_ok ctx w 0 hrange
+      rw [hr] at hr'
+      simp only [Except.ok.injEq] at hr'; subst hr'
+      simpa using hsem'
+    have hra : ∀ ctx, AlphaAtoms (sem ctx r) := by
+      intro ctx x hx
+      rw [hsemAll] at hx
+      exact halpha ctx x (List.mem_of_mem_take hx)
+    have hlenr : len r ≠ 0 := by
+      rw [← sem_length r [], hsem, List.length_take, sem_length]; omega
+    have hap : addPeriodT r = append r periodStr := by
+      unfold addPeriodT RT.addPeriod
+      rw [endsWith_false_of_alpha r hra]
+      simp [hlenr]
+    rw [hap, toStr_append, ← toStr_sem r [], hsem, ← toStr_sem w []]
+    congr 1
+    have hne : sem [] w ≠ [] := by
+      intro h0
+      have := congrArg List.length h0
+      rw [sem_length] at this
+      exact hlen (by simpa using this)
+    cases hw : sem [] w with
+    | nil => exact absurd hw hne
+    | cons x rest =>
+      obtain ⟨c, hc, -⟩ := halpha [] x (by rw [hw]; simp)
+      obtain ⟨a, m⟩ := x
+      simp only at hc; subst hc
+      simp [Flat.toStr]
+  · rfl
+
+theorem toStr_abbreviate_pieces (t : RT) : toStr (abbreviate t) = ((abbrPieces t).map abbrPiece).flatten := by
+  rw [toStr_abbreviate]
+  congr 1
+  exact List.map_congr_left fun w _ => toStr_abbreviateWord w
+
+theorem abbrPiece_alpha {w : RT} (h : isAlphaTU w = true) :
+    ∃ c rest, toStr w = c :: rest ∧ isAlphaN c = true ∧ abbrPiece w = [c, '.'] := by
+  obtain ⟨hlen, halpha⟩ := alphaAtoms_of_isAlphaTU w h
+  cases hw : sem [] w with
+  | nil =>
+    have := congrArg List.length hw
+    rw [sem_length] at this
+    exact absurd (by simpa using this) hlen
+  | cons x rest =>
+    obtain ⟨c, hc, hca⟩ := halpha [] x (by rw [hw]; simp)
+    obtain ⟨a, m⟩ := x
+    simp only at hc; subst hc
+    have hts : toStr w = c :: Flat.toStr rest := by
+      rw [← toStr_sem w [], hw]; simp [Flat.toStr]
+    exact ⟨c, Flat.toStr rest, hts, hca, by simp [abbrPiece, h, hts]⟩
+
+/-! ### alpha base labels -/
+
+theorem stripChar_alnum (d c : Char) (hc : c ∈ stripChar d) : isAlnum c = true := by
+  unfold stripChar at hc
+  split at hc
+  · split at hc
+    · rename_i h2
+      simp only [List.mem_singleton] at hc; subst hc; exact h2
+    · cases hc
+  · split at hc
+    · rename_i l hl
+      have htab : (Gen.stripAccents.all fun p => p.2.all fun n => isAlnum (Char.ofNat n)) = true := by
+        decide +kernel
+      have hmem : (d.toNat, l) ∈ Gen.stripAccents := by
+        have := List.lookup_eq_some_iff.1 hl
+        obtain ⟨l1, l2, h1, -⟩ := this
+        rw [h1]; simp
+      have hall := List.all_eq_true.1 htab _ hmem
+      obtain ⟨n, hn, rfl⟩ := List.mem_map.1 hc
+      exact List.all_eq_true.1 hall n hn
+    · cases hc
+
+theorem stripNonalnum_alnum (parts : List Str) : ∀ c ∈ stripNonalnum parts, isAlnum c = true := by
+  intro c hc
+  simp only [stripNonalnum, List.mem_flatMap] at hc
+  obtain ⟨d, -, hd⟩ := hc
+  exact stripChar_alnum d c hd
+
+theorem labNamesLoop_chars (persons : List Person) (n : Nat) :
+    ∀ left ptr, ∀ c ∈ labNamesLoop persons n left ptr, isAlnum c = true ∨ c = '+' := by
+  intro left
+  induction left with
+  | zero => intro ptr c hc; simp [labNamesLoop] at hc
+  | succ k ih =>
+    intro ptr c hc
+    simp only [labNamesLoop] at hc
+    split at hc
+    · cases hc
+    · rename_i p hp
+      simp only [List.mem_append] at hc
+      rcases hc with hc | hc
+      · split at hc
+        · simp only [List.mem_singleton] at hc; exact Or.inr hc
+        · exact Or.inl (stripNonalnum_alnum _ c hc)
+      · exact ih _ c hc
+
+theorem formatLabNames_chars (ps : List Person) (l : Str) (h : formatLabNames ps = some l) :
+    ∀ c ∈ l, isAlnum c = true ∨ c = '+' := by
+  unfold formatLabNames at h
+  split at h
+  · cases h
+  · rename_i p
+    simp only [Option.some.injEq] at h; subst h
+    intro c hc
+    split at hc
+    · exact Or.inl (stripNonalnum_alnum _ c (List.mem_of_mem_take hc))
+    · exact Or.inl (stripNonalnum_alnum _ c hc)
+  · simp only [Option.some.injEq] at h; subst h
+    intro c hc
+    simp only [List.mem_append] at hc
+    rcases hc with hc | hc
+    · exact labNamesLoop_chars _ _ _ _ c hc
+    · split at hc
+      · simp only [List.mem_singleton] at hc; exact Or.inr hc
+      · cases hc
+
+theorem formatLabel_year (e : PEntry) (l : Str) (h : formatLabel e = some l) : ∃ b, l = b ++ year2 e := by
+  unfold formatLabel at h
+  simp only [Option.map_eq_some_iff] at h
+  obtain ⟨b, -, rfl⟩ := h
+  refine ⟨b, ?_⟩
+  unfold year2
+  split <;> simp
+
+theorem formatLabel_author (e : PEntry) (ps : List Person)
+    (ht : ¬(e.type = "book".toList ∨ e.type = "inbook".toList)) (hp : e.type ≠ "proceedings".toList)
+    (hm : e.type ≠ "manual".toList) (ha : getPersons e "author" = some ps) :
+    formatLabel e = (formatLabNames ps).map (· ++ year2 e) := by
+  unfold formatLabel
+  simp only [if_neg ht, if_neg hp, if_neg hm, ha, Option.map_some]
+  cases formatLabNames ps with
+  | none => rfl
+  | some b =>
+    simp only [Option.map_some, Option.some.injEq]
+    unfold year2
+    split <;> simp
 
 end Pybtex.Tmpl
